@@ -44,6 +44,10 @@ func c12Run(c *h.Ctx) {
 		c12BreakDuringOpenRetry(c)
 		return
 	}
+	if c.Case%40 == 27 {
+		c12ViaManager(c)
+		return
+	}
 	r := c.R
 	var cur blindLvl
 	var atSignal blindLvl
@@ -212,6 +216,44 @@ func c12Run(c *h.Ctx) {
 	c.Sample(map[string]interface{}{"cfg": p.Cfg, "hands": len(p.SS.Hands), "blind_updates": updates, "last_level": cur.String()})
 }
 
+// c12ViaManager: blind updates that arrive through the Manager (the usual entry point of a competition layer) put
+// exactly the announced level in force.
+func c12ViaManager(c *h.Ctx) {
+	r := c.R
+	m := pt.NewManager()
+	cfg := h.GenTable(r, h.GenOpts{MinSeats: 3, MinPlayers: 3, DeepOnly: true, Modes: []string{"ct", "cash"}})
+	opts := pt.NewTableEngineOptions()
+	opts.GameContinueInterval = 0
+	st := cfg.Setting(true)
+	st.TableID = "M"
+	if _, err := m.CreateTable(opts, nil, st); err != nil {
+		c.Inconclusive(err.Error())
+		return
+	}
+	eng, err := m.GetTableEngine("M")
+	if err != nil {
+		c.Inconclusive(err.Error())
+		return
+	}
+	for k := 0; k < 12; k++ {
+		v := r.Perm(90)
+		l := blindLvl{Level: 1 + r.Intn(9), Ante: int64(1 + v[0]), Dealer: int64(1 + v[1]), SB: int64(1 + v[2]), BB: int64(1 + v[3])}
+		if err := m.UpdateBlind("M", l.Level, l.Ante, l.Dealer, l.SB, l.BB); err != nil {
+			c.Violate("C12/blind-update-refused", err.Error(), nil)
+			return
+		}
+		if got := lvlOfState(eng.GetTable().State.BlindState); got != l {
+			c.Violate("C12/level-in-force-differs-from-the-update", fmt.Sprintf("Manager.UpdateBlind announced %s, the table's level in force is %s", l, got), map[string]interface{}{"cfg": cfg})
+			return
+		}
+		c.Count("manager_updates_checked", 1)
+	}
+	c.Feature("update:through-the-manager")
+	c.Nontrivial()
+	c.FP("via-manager", c.Seed)
+	c.Sample(map[string]interface{}{"kind": "blind updates through the Manager, all-distinct amounts"})
+}
+
 // c12CreatedOnBreak: a table created on a break level starts paused and opens nothing.
 func c12CreatedOnBreak(c *h.Ctx) {
 	cfg := h.GenTable(c.R, h.GenOpts{MinSeats: 3, MinPlayers: 3, DeepOnly: true, Modes: []string{"ct", "cash", "mtt"}})
@@ -376,7 +418,7 @@ func init() {
 		},
 		Cases:            func(tier string) int { return map[string]int{"quick": 1200, "thorough": 20000}[tier] },
 		MinNontrivial:    func(tier string) int { return map[string]int{"quick": 600, "thorough": 10000}[tier] },
-		RequiredFeatures: func(string) []string { return []string{"update:between-hands", "update:mid-hand", "update:break-mid-hand", "paused-after-break-mid-hand", "update:break-ends", "created-on-break", "level-changed-while-hand-ran", "break-set-in-continue-interval", "break-ends-in-continue-interval", "break-during-open-retry"} },
+		RequiredFeatures: func(string) []string { return []string{"update:between-hands", "update:mid-hand", "update:break-mid-hand", "paused-after-break-mid-hand", "update:break-ends", "created-on-break", "level-changed-while-hand-ran", "break-set-in-continue-interval", "break-ends-in-continue-interval", "break-during-open-retry", "update:through-the-manager", "update:overlapping-the-open"} },
 		CaseTimeout:      200e9,
 		InProc:           4,
 		Run:              c12Run,
